@@ -88,7 +88,7 @@ def cases():
                         props=('C05', 'C06'), expect={'exit': '1', 'applied': [], 'tree': F, 'rejects': []}))
 
     # ---- .pc cannot be written: both drivers leave the same behind
-    out.append(Case('.pc is a regular file, the second patch fails', dict(F, **{'.pc': (b'not a directory\n', 0o644)}),
+    out.append(Case('.pc/p0.patch is a regular file (no backup can be written), the second patch fails', dict(F, **{'.pc/p0.patch': (b'not a directory\n', 0o644)}),
                     {'p0.patch': mod(b'g', b'g', 2, b'G2'), 'p1.patch': mod(b'f', b'f', 2, b'X', bad=True)}, ['p0.patch', 'p1.patch'], ['pc-is-a-file'], first_fail=1, props=('C06',)))
 
     # ---- a name that is not valid UTF-8
@@ -96,6 +96,13 @@ def cases():
     out.append(Case('failing hunk on a file whose extension is not valid UTF-8', dict(F, **{odd: (lines(b'o'), 0o644)}), {'p0.patch': mod(b'f.\xff', b'o', 2, b'X', bad=True)}, ['p0.patch'],
                     ['non-utf8-name'], first_fail=0, props=('C13', 'C05'),
                     expect={'exit': '1', 'applied': [], 'tree': dict(F, **{odd: (lines(b'o'), 0o644)}), 'rejects': [odd + '.rej']}))
+
+    # ---- a patch whose name starts with '#' (a series line with a blank in front of it, as in quilt)
+    out.append(Case("patch named '#x.patch'", F, {'#x.patch': mod(b'f', b'f', 1, b'F1'), 'y.patch': mod(b'g', b'g', 2, b'G2'), 'z.patch': mod(b'f', b'f', 4, b'F4')}, [' #x.patch', 'y.patch', 'z.patch'],
+                    ['patch-name-starting-with-hash'], names=['#x.patch', 'y.patch', 'z.patch'], first_fail=None, props=('C09',)))
+    # ---- a directory that is empty before the push: a file created in it and deleted again
+    out.append(Case('file created in an empty directory and deleted by a later patch', dict(F, d=(b'', 'dir')), {'p0.patch': create(b'd/n', [b'n1', b'n2']), 'p1.patch': delete(b'd/n', [b'n1', b'n2']), 'p2.patch': mod(b'f', b'f', 1, b'F1')},
+                    ['p0.patch', 'p1.patch', 'p2.patch'], ['file-created-and-deleted-in-a-directory-that-was-empty'], first_fail=None, props=('C09', 'C06')))
 
     # ---- known limitation (KF-03): a name that is a file for one patch and a directory for another, within one push
     out.append(Case('file a deleted, then a/b created', dict(F, a=(b'x\ny\n', 0o644)), {'p0.patch': delete(b'a', [b'x', b'y']), 'p1.patch': create(b'a/b', [b'n1', b'n2'])}, ['p0.patch', 'p1.patch'],
